@@ -15,9 +15,9 @@ ASSUMPTIONS = [
     "row sets are compared; all variables of the condition are selected",
 ]
 BOUNDS = {
-    "quick": dict(variables="1-2", domains="3 (one variable), 2x2 (two)", leaves="L<=2, every leaf kind at L=1, up to 3 "
+    "quick": dict(variables="1-3", domains="3 (one variable), 2x2 (two)", leaves="L<=2, every leaf kind at L=1, up to 3 "
                   "stacked negations over trees that already contain negations"),
-    "thorough": dict(variables="1-2", domains="3 / 2x2", leaves="L<=3 with negation at every node subset"),
+    "thorough": dict(variables="1-3", domains="3 / 2x2", leaves="L<=3 with negation at every node subset"),
 }
 LIMITS = {"quick": dict(max_paths=8000, max_wall=90), "thorough": dict(max_paths=60000, max_wall=400)}
 FIDELITY_EVERY = {"quick": 4, "thorough": 2}
@@ -105,6 +105,18 @@ def shapes(tier, seed):
             if tier == "thorough" or rnd.random() < 0.4:
                 add(TWO, [op, ["not", l1], l2])
                 add(TWO, ["not", [op, l1, ["not", l2]]])
+    # three variables: or-of-and / and-of-or trees whose branches mention different variable sets (after De Morgan a variable
+    # reaches the right-hand side sometimes bound and sometimes unbound)
+    B3 = dict(pools={"X": 2, "Y": 2, "W": 2}, classes={"W": "Other"}, refs={"X": "Y"}, vars={"x": "X", "y": "Y", "w": "W"},
+              select=[["v", "x"], ["v", "w"], ["v", "y"]])
+    E = lambda a, fa, b, fb: ["cmp", "eq", ["a", a, fa], ["a", b, fb]]
+    LTxy = ["cmp", "lt", ["a", "x", "a"], ["a", "y", "a"]]
+    FY = ["cmp", "gt", ["a", "y", "b"], ["lit", 0]]
+    for c in (["or", ["and", E("x", "a", "w", "a"), FY], LTxy], ["or", LTxy, ["and", E("x", "a", "w", "a"), FY]],
+              ["and", ["or", E("x", "a", "w", "a"), FY], LTxy], ["or", ["and", FY, E("x", "a", "w", "a")], E("w", "b", "y", "b")],
+              ["and", E("x", "a", "w", "a"), ["or", FY, LTxy]], ["or", E("x", "a", "w", "a"), FY, LTxy]):
+        add(B3, c, depth=2)
+        add(B3, c, depth=1, select=[["v", "y"], ["v", "x"], ["v", "w"]])
     skels = list(S.tree_skeletons(3))
     nsamp = 60 if tier == "quick" else 600
     for _ in range(nsamp):
